@@ -50,6 +50,12 @@ impl LintContext {
                     quote.twin_loc = None;
                 }
 
+                // Dictionary metadata is not part of the text either: it changes when the user adds
+                // the word to a dictionary (or when the curated dictionary is updated).
+                if let TokenKind::Word(metadata) = &mut fat.kind {
+                    *metadata = None;
+                }
+
                 fat
             })
             .collect();
